@@ -33,6 +33,7 @@ type upConn struct {
 	gotAtCW   int // bytes received when CloseWrite came
 	onRead    func()
 	noHalf    bool
+	failWrite bool // the upstream resets the connection at the first write
 }
 
 func (u *upConn) Read(p []byte) (int, error) {
@@ -55,6 +56,9 @@ func (u *upConn) Read(p []byte) (int, error) {
 func (u *upConn) Write(p []byte) (int, error) {
 	if u.closed > 0 || u.closeW > 0 {
 		return 0, net.ErrClosed
+	}
+	if u.failWrite {
+		return 0, errReset
 	}
 	u.got = append(u.got, p...)
 	return len(p), nil
@@ -80,6 +84,7 @@ var (
 	mkUp      func(i int) *upConn
 	ups       []*upConn
 	errDial   = errors.New("dial tcp: connection refused")
+	errReset  = errors.New("write: connection reset by peer")
 	dialErrs  []error // the error of every failed dial, in order (each one distinct)
 )
 
@@ -374,8 +379,31 @@ func VH_ppsend() {
 	}
 }
 
+// VH_ppsend_fail: an upstream accepts the connection and resets it when the PROXY
+// header is written. Whatever Handle does then (fail, or retry), every upstream
+// connection it opened has been closed when it returns.
+func VH_ppsend_fail() {
+	resetEnv()
+	ver := uint8(1 + vapi.Choice("version", 2))
+	np := 1 + vapi.Choice("npeers", 2)
+	u := mkUpstream(0, 0, np)
+	h := l4proxy.VerifNewHandler(l4proxy.UpstreamPool{u}, &l4proxy.FirstSelection{}, 0, 0, nil, ver)
+	bad := vapi.Choice("resetting peer", np)
+	mkUp = func(i int) *upConn { return &upConn{id: i, failWrite: i == bad} }
+	sc := &env.SymConn{D: vapi.Bytes("D", 2), MaxReads: 3}
+	sc.Remote = &net.TCPAddr{IP: net.IP{192, 0, 2, 33}, Port: 40123}
+	cx := layer4.WrapConnection(sc, nil, zap.NewNop())
+	err := h.Handle(cx, nil)
+	vapi.Cover("header write failed")
+	vapi.Assert(err != nil, "Handle reported success although the PROXY header could not be sent")
+	for _, up := range ups {
+		vapi.Assert(up.closed >= 1, "an upstream connection opened by Handle was left open after the PROXY header could not be written")
+	}
+}
+
 func init() {
 	for name, f := range map[string]func(){
+		"VH_ppsend_fail": VH_ppsend_fail,
 		"VH_maxconn": VH_maxconn, "VH_active": VH_active, "VH_failwindow": VH_failwindow, "VH_retry": VH_retry,
 		"VH_relay": VH_relay, "VH_ppsend": VH_ppsend, "VH_limits": VH_limits,
 	} {
